@@ -238,6 +238,41 @@ def _check(pid, P, tier, seed, bdir, ev):
             pn = [n for (kd, n) in cc.get('clauses', []) if kd == 'ensures' and n.startswith('p_')]
             if pn:
                 pclauses[ck] = pn
+        # A change that only ADDS code to a function (a defensive check, a cache, a fast path) often keeps the property but defeats the proof
+        # (the verifier would need lemmas to see that the new path agrees with the old one).  If the text of a failing function differs from
+        # the text the contract was written for by insertions only, the failed proof alone is not reported: undecided, the concrete search decides.
+        fpath = os.path.join(VERIF, 'contracts', 'fn_text.lock.json')
+        if os.path.exists(fpath) and failures:
+            import difflib
+            from rustlex import strip_comments as _sc
+            ftext = json.load(open(fpath))
+            byk1 = {f['key']: f for f in meta['functions']}
+            insdom = {}
+            for fk in set(x.fn_key for x in failures if x.verdict and x.fn_key):
+                f1 = byk1.get(fk)
+                if not f1 or fk not in ftext:
+                    continue
+                try:
+                    cur = '\n'.join(open(os.path.join(REPO, f1['file'])).read().split('\n')[f1['lines'][0] - 1:f1['lines'][1]])
+                except Exception:
+                    continue
+                tok = lambda t: re.findall(r'\w+|[^\w\s]', t)
+                a, b = tok(ftext[fk]), tok(re.sub(r'\s+', ' ', _sc(cur)).strip())
+                ins = dele = 0
+                for op, i1, i2, j1, j2 in difflib.SequenceMatcher(None, a, b, autojunk=False).get_opcodes():
+                    if op in ('insert', 'replace'):
+                        ins += j2 - j1
+                    if op in ('delete', 'replace'):
+                        dele += i2 - i1
+                if ins >= 15 and dele * 4 <= ins:
+                    insdom[fk] = (ins, dele)
+            for x in failures:
+                if x.verdict and x.fn_key in insdom:
+                    x.verdict = False
+                    x.message = ('the change only ADDS code to this function (%d tokens inserted, %d removed): the failed proof may be incompleteness, not reported '
+                                 'without a concrete failing input: %s' % (insdom[x.fn_key][0], insdom[x.fn_key][1], x.message))
+            if insdom:
+                cov.setdefault('insertion_only_changes', {})[uname] = {VR.short(k): v for k, v in insdom.items()}
         # functions that did not exist when the contracts were written have no contract: a caller that now delegates to one cannot be
         # proved, which is a lost anchor (undecided), not a violation
         if tlock and uname in tlock.get('known_functions', {}):
